@@ -96,7 +96,7 @@ def check(env, rep, tier):
             for s in sorted(obs, key=lambda x: (x["fn"], x["line"], x["kind"])):
                 ok = s["ok"]
                 lem = None
-                if not ok and s["kind"] == "assert:Overflow(Add)" and s["fn"].endswith("resource_changed::{closure#0}") \
+                if not ok and s["kind"] == "assert:Overflow(Add)" and s["fn"].startswith(SUBJ + "resource_changed") \
                         and any("4294967295" in d for d in s["details"]):
                     ok, lem = True, "lemma6-sequence-rounds"
                     rep.lemmas[lem] = rep.lemmas.get(lem, 0) + 1
@@ -127,13 +127,31 @@ def check(env, rep, tier):
                 if f["name"] == "unacknowledged_limit":
                     lim_i = fi
             limit = I.ensure(st, args[0].place.extend(("f", lim_i)), ("int", 8, False), "limit") if lim_i is not None else None
-            c_round = closure_body(prog, SUBJ + "resource_changed", [0])
-            c_obs = closure_body(prog, SUBJ + "resource_changed", [0, 0])
-            c_ret = closure_body(prog, SUBJ + "resource_changed", [0, 1])
-            if None in (c_round, c_obs, c_ret) or not isinstance(conf, IntV) or not isinstance(mid, IntV) or not isinstance(limit, IntV):
-                rep.missing("C15.1", "closures / inputs of resource_changed (the notification round is no longer an entry.and_modify closure?)")
+            # the closures of the round are found by what they are applied to, wherever they are nested:
+            # per-observer update (&mut Observer), retain predicate (&Observer)
+            c_obs = c_ret = None
+            for ob in prog.bodies.values():
+                if ob.get("promoted") or not ob["path"].startswith(SUBJ + "resource_changed::{closure") or ob["arg_count"] < 2:
+                    continue
+                pt = prog.types[ob["locals"][2]["ty"]]["s"]
+                if pt.startswith("&mut observe::Observer<"):
+                    c_obs = ob if c_obs is None else c_obs
+                elif pt.startswith("&observe::Observer<"):
+                    c_ret = ob if c_ret is None else c_ret
+            c_round = c_obs
+            if None in (c_obs, c_ret) or not isinstance(conf, IntV) or not isinstance(mid, IntV) or not isinstance(limit, IntV):
+                rep.missing("C15.1", "per-observer update / retain predicate closures or inputs of resource_changed")
             else:
                 results = {"round": [], "obs": [], "ret": []}
+                seq_stores = []
+
+                def seq_store(I_, ctx, s, place, v, site_):
+                    if place.proj and place.proj[-1] == ("f", i_seq) and ctx.body["path"].startswith(SUBJ + "resource_changed"):
+                        old_v = I_.read(s, place)
+                        if isinstance(old_v, TopV):
+                            old_v = I_.ensure(s, place, ("int", 32, False), "sequence")
+                        seq_stores.append((s.copy(), old_v, v))
+                I.store_hooks.append(seq_store)
 
                 def mk(kind):
                     def hook(I_, ctx, outs):
@@ -141,7 +159,6 @@ def check(env, rep, tier):
                             ref = s.cells.get((ctx.fid, 2))
                             results[kind].append((s.copy(), ref, rv))
                     return hook
-                I.return_hooks[c_round["id"]] = mk("round")
                 I.return_hooks[c_obs["id"]] = mk("obs")
                 I.return_hooks[c_ret["id"]] = mk("ret")
                 I.no_join_bodies.update([c_round["id"], c_obs["id"], c_ret["id"]])
@@ -156,14 +173,13 @@ def check(env, rep, tier):
                         if co == 1 and len(val.aff.t) == 1 and inf is not None and inf[0] == "unknown":
                             return val.aff.c == k
                     return False
-                ok = bool(results["round"])
-                for s, ref, rv in results["round"]:
-                    v = I.read(s, ref.place.extend(("f", i_seq))) if isinstance(ref, RefV) else None
-                    if not entry_sym_plus(s, v, 1):
+                ok = bool(seq_stores)
+                for s, old_v, new_v in seq_stores:
+                    if not (isinstance(old_v, IntV) and isinstance(new_v, IntV) and new_v.aff == old_v.aff + 1):
                         ok = False
-                site = {"file": c_round["span"]["f"], "line": c_round["span"]["l"], "fn": c_round["path"]}
-                rep.ob("C15.1", "sequence+1", ok, "a notification round does not leave sequence = previous sequence + 1 on every path", site,
-                       sample={"rule": "C15.1", "paths": len(results["round"])})
+                site = {"file": rc["span"]["f"], "line": rc["span"]["l"], "fn": rc["path"]}
+                rep.ob("C15.1", "sequence+1", ok, "a notification round does not store sequence = previous sequence + 1 (stores seen: %d)" % len(seq_stores), site,
+                       sample={"rule": "C15.1", "stores": len(seq_stores)})
                 # per-observer closure
                 ok_mid, ok_cnt = bool(results["obs"]), bool(results["obs"])
                 for s, ref, rv in results["obs"]:
@@ -219,6 +235,62 @@ def check(env, rep, tier):
                 site = {"file": c_ret["span"]["f"], "line": c_ret["span"]["l"], "fn": c_ret["path"]}
                 rep.ob("C15.3", "retain<=limit", ok, "observers are not retained exactly when count <= configured limit", site,
                        sample={"rule": "C15.3", "paths": len(results["ret"])})
+        # ---------------------------------------------- C15.3b the counter can pass every limit
+        oa = prog.adts["observe::Observer"]["variants"][0]["fields"]
+        ct = prog.types[oa[i_unack]["ty"]]
+        lt = None
+        for f in prog.adts["observe::Subject"]["variants"][0]["fields"]:
+            if f["name"] == "unacknowledged_limit":
+                lt = prog.types[f["ty"]]
+        okw = lt is not None and ct.get("k") == "int" and lt.get("k") == "int" and not ct.get("signed") and ct.get("bits", 0) > lt.get("bits", 0)
+        rep.ob("C15.3", "counter-wider-than-limit", okw,
+               "the unacknowledged counter (%s) cannot exceed the largest configurable limit (%s): with that limit the count saturates at "
+               "the limit and the observer is never dropped" % (ct.get("s"), lt.get("s") if lt else None))
+        # ---------------------------------------------- C15.4b an acknowledgement is applied to every resource: the walk over the
+        #                                                  registry ends only when the map iterator is exhausted
+        ab_ = find_body(prog, SUBJ + "acknowledge")
+        if ab_ is not None:
+            import interp as _ip
+            info = _ip.BodyInfo(ab_)
+            walk = []
+            for h, blocks in info.loops.items():
+                nexts = [bi for bi in blocks if ab_["blocks"][bi]["term"]["k"] == "call" and not ab_["blocks"][bi].get("cleanup")
+                         and "collections::btree::map::Iter" in ((ab_["blocks"][bi]["term"].get("resolved") or ab_["blocks"][bi]["term"].get("callee") or {}).get("path", ""))
+                         and (ab_["blocks"][bi]["term"].get("resolved") or ab_["blocks"][bi]["term"].get("callee") or {}).get("name") == "next"]
+                if nexts:
+                    walk.append((h, blocks, nexts))
+            okx = bool(walk)
+            early = []
+            for h, blocks, nexts in walk:
+                if info.parent_loop.get(h) is not None and any(h in b2 for h2, b2, _ in walk if h2 != h):
+                    continue
+                # blocks that decide on the result of next(): successors of the call, up to the switch on its discriminant
+                deciders = set()
+                for nb in nexts:
+                    tgt = ab_["blocks"][nb]["term"].get("t")
+                    cur = tgt
+                    for _ in range(4):
+                        if cur is None:
+                            break
+                        deciders.add(cur)
+                        t2 = ab_["blocks"][cur]["term"]
+                        if t2["k"] == "switch":
+                            break
+                        cur = t2.get("t") if t2["k"] in ("goto", "call") else None
+                for bi in blocks:
+                    bb = ab_["blocks"][bi]
+                    if bb.get("cleanup"):
+                        continue
+                    for su in info.succ[bi]:
+                        if su not in blocks and not ab_["blocks"][su].get("cleanup") and bi not in deciders:
+                            if ab_["blocks"][su]["term"]["k"] in ("unreachable",):
+                                continue
+                            early.append(bb["tspan"]["l"])
+            rep.ob("C15.4", "acknowledge|walks-all-resources", okx and not early,
+                   "acknowledge can leave its walk over the resources before the map is exhausted (exit at line %s): an endpoint observing "
+                   "several resources has only the first matching one reset" % sorted(set(early)),
+                   {"file": ab_["span"]["f"], "line": ab_["span"]["l"], "fn": ab_["path"]},
+                   sample={"rule": "C15.4", "registry_walk_loops": len(walk)})
         # ---------------------------------------------- C15.4 acknowledge
         from rules import c14
         c14.predicate_rule(prog, rep, "C15.4", "acknowledge", (0,), {"endpoint", "message_id"}, 1, extra=c14.make_ack_extra(prog, i_mid))
